@@ -122,8 +122,12 @@ def finding_key(case, verdict, detail, eng_out):
         return 'aggregation:aggr-clause-ungrouped-on-empty-dataset:returns-a-null-datapoint'
     if verdict.startswith('REJECT:semantic:') and st == 'having-other-component':
         return 'aggregation:aggr-clause-having-on-component-not-aggregated-by-every-item:SemanticError-%s' % verdict.rsplit(':', 1)[1]
+    if verdict.startswith('REJECT:semantic:') and st == 'having-count-vs-aggregate':
+        return 'aggregation:having-compares-count-with-another-aggregate:SemanticError-%s' % verdict.rsplit(':', 1)[1]
     if verdict == 'DISAGREE:engine-error' and eng_out[0] == 'raw':
         cls = eng_out[1].split('.')[-1]
+        if st == 'minmax-no-measures-ungrouped':
+            return 'aggregation:standalone-min-max-of-dataset-without-measures-ungrouped:%s' % cls
         if st in ('having-two-measures',) or (case['having'] and 'Only one measure' in str(eng_out[-1])):
             return 'aggregation:standalone-having-with-several-measures:%s' % cls
         return 'aggregation:%s:%s:%s' % (st, cls, msg_head(eng_out))
@@ -160,7 +164,7 @@ def main(ck):
     n_main = int(os.environ.get('VERIF_N', 0)) or (260 if q else 4000)
     g = GA.AggrGen(ck.rng)
     main_cases = [g.case() for _ in range(n_main)]
-    side = [g.rejected_having() for _ in range(6 if q else 40)] + [g.group_all() for _ in range(10 if q else 80)]
+    side = [g.rejected_having([0.1, 0.4, 0.6, 0.9][i % 4]) for i in range(8 if q else 40)] + [g.group_all() for _ in range(10 if q else 80)]
     # empty operands in every form (the generator reaches them only now and then)
     for _ in range(8 if q else 60):
         c = g.case(ck.rng.choice(['standalone', 'clause']))
